@@ -175,6 +175,9 @@ class PDFPage:
         # Process each page contained in the document.
         for pageno, page in enumerate(cls.create_pages(doc)):
             if pagenos and (pageno not in pagenos):
+                # a skipped page counts towards the limit as well
+                if maxpages and maxpages <= pageno + 1:
+                    break
                 continue
             yield page
             if maxpages and maxpages <= pageno + 1:
